@@ -26,7 +26,7 @@ def evaluate(case):
     if so_used.max() > krt["So"].max():  # saturations must lie inside the rel-perm table
         return {"violations": [], "outcome": "n/a"}
     phi, Sw = case["phi"], case["Sw"]
-    So = np.full_like(p, case["So"]) if case["So"] is not None else tb["So"]
+    So = np.full(p.shape, case["So"], dtype=float) if case["So"] is not None else tb["So"]  # (p may be integer-typed)
     if np.any(1 - So - Sw < -1e-12):
         return {"violations": [], "outcome": "n/a"}
     viol = []
@@ -66,6 +66,23 @@ def evaluate(case):
             viol.append(V("storage/analytic-slope", f"compressibility {c[k]!r} vs analytic dG/dp {ex[k]!r} at "
                           f"p={p[k]:.6g} ({rel.max():.3g} relative)", case=case, observed=float(c[k]),
                           expected=float(ex[k]), tol=tol))
+    # call history on the SAME pvt object: other saturations (array-valued Sw, integer 0), then the first call again
+    So_b = np.clip(So * 0.5 + 0.05, 0.0, 1.0)
+    Sw_b = np.minimum(Sw + 0.02 * (np.arange(len(p)) % 3), 1 - So_b)
+    for So_x, Sw_x, tag in ((So_b, Sw, "other-So"), (So, Sw_b, "array-Sw"), (So_b, Sw_b, "other-So-array-Sw"),
+                            (So, 0 if Sw == 0 else np.float64(Sw), "Sw-as-int-or-0d")):
+        cx = np.asarray(fp.compressibility_combined_func(p, So_x, phi, Sw_x, pvt), dtype=float)
+        wx = mp.storage_doc(p + 0.5, So_x, Sw_x, phi, fn, rho) - mp.storage_doc(p - 0.5, So_x, Sw_x, phi, fn, rho)
+        Gx = mp.storage_doc(p, So_x, Sw_x, phi, fn, rho)
+        if cx.shape != p.shape or not np.all(np.abs(cx - wx) <= 1e-8 * np.abs(wx) + 1e-13 * np.abs(Gx)):
+            viol.append(V("storage/is-pressure-derivative/" + tag, "a second call on the same PVT functions with other "
+                          f"saturations ({tag}) does not return the derivative of the stored mass for THOSE saturations",
+                          case=case))
+            break
+    c_again = np.asarray(fp.compressibility_combined_func(p, So, phi, Sw, pvt), dtype=float)
+    if not np.array_equal(c_again, c):
+        viol.append(V("storage/depends-on-call-history", "the first call repeated after calls with other saturations "
+                      "returns something else", case=case))
     lam = np.asarray(fp.lambda_combined_func(p, So, pvt, kr), dtype=float)
     lam_want = mp.lam_doc(p, So, tb, kr, rho)
     if not np.allclose(lam, lam_want, rtol=1e-12, atol=0):
@@ -86,6 +103,25 @@ def evaluate(case):
             # the same table listed from high to low pressure: every row keeps its own saturation
             tb_r = {k: np.asarray(v)[::-1].copy() for k, v in tb.items()}
             fl_r = fp.FlowPropertiesTwoPhase.from_table(tb_r, krt, rho, phi, Sw, float(p[len(p) // 2]))
+            # the documented input type: a DataFrame - here one that was sorted / filtered without resetting its index
+            import pandas as pd  # noqa: PLC0415
+            df_r = pd.DataFrame(tb).sort_values("pressure", ascending=False)
+            df_f = pd.DataFrame(tb).iloc[3:]
+            snap = (df_r.copy(), df_f.copy())
+            fl_dr = fp.FlowPropertiesTwoPhase.from_table(df_r, krt, rho, phi, Sw, float(p[len(p) // 2]))
+            fl_df = fp.FlowPropertiesTwoPhase.from_table(df_f, krt, rho, phi, Sw, float(p[len(p) // 2]))
+        if not (df_r.equals(snap[0]) and df_f.equals(snap[1])):
+            viol.append(V("from_table/caller-table-modified", "from_table modified the caller's DataFrame", case=case))
+        for tag, f2, sel in (("descending frame with its original index", fl_dr, slice(None)), ("row-filtered frame", fl_df, slice(3, None))):
+            p2 = np.asarray(f2.pvt_props["pressure"], dtype=float)
+            a2 = np.asarray(f2.pvt_props["alpha"], dtype=float)
+            o2 = np.argsort(p2)
+            okk = ok[sel].copy()
+            okk[0] = False  # the first row's stencil reaches below the (filtered) table: extrapolated from other rows
+            if not (np.array_equal(p2[o2], np.asarray(p, dtype=float)[sel])
+                    and np.allclose(a2[o2][okk], (lam_want / want)[sel][okk], rtol=1e-7, atol=0)):
+                viol.append(V("diffusivity/tabulated-frame", f"from_table on a {tag}: tabulated alpha is not documented "
+                              "lambda / c at that row's own pressure and saturation", case=case))
         ta = np.asarray(fl.pvt_props["alpha"], dtype=float)
         pr_, ar_ = np.asarray(fl_r.pvt_props["pressure"], dtype=float), np.asarray(fl_r.pvt_props["alpha"], dtype=float)
         o_ = np.argsort(pr_)
@@ -100,7 +136,7 @@ def evaluate(case):
 
 
 def cases(tier, seed):
-    fams = ["shipped", "shipped0", "constant", "invB-linear", "kinked", "vaporised"]
+    fams = ["shipped", "shipped0", "constant", "invB-linear", "kinked", "vaporised", "swelling"]
     grids = (["uniform", "geometric", "irregular", "integer", "high"] if tier == "thorough"
              else ["uniform", "irregular", "integer", "high"])
     sos = [None, 0.05, 0.2, 0.5, 0.8]  # 0.05 and 0.2 are at/below the oil residual of some rel-perm sets
